@@ -15,6 +15,7 @@ import numpy as np
 from .. import taps
 from ..ctx import digest, Skip
 from ..ref import fmt as F
+from ..snap import obs_digest, any_digest
 
 ID = 'C19'
 LEVEL = 'exploration'
@@ -30,6 +31,8 @@ RULE = ('cases: one per cell (decade of the error -15..14) x (position: 10^k(1-u
         'each string through format(), str(), repr() (significance 2) and the direct formatter; every string goes to the prior parser, one in three to the prior constructor, '
         'a few dozen least_squares fits take string priors. Further rows: CObs strings, plain values (no / zero / non-finite error), <, <=, >, >= against float / int / numpy scalar / Obs '
         'in both orders incl. ties, float(), is_zero_within_error (sigma 0.5..3 incl. exact equality |value| = sigma*dvalue), Corr.plottable with undefined slices. '
+        'second hardening: prior positions 9..65536, fits with 11 / 12 parameters all carrying string priors (list and dict filled in descending order), correlators with 11..260 timeslices, one shared fit-function object / fresh lambdas / fresh defs, '
+        'the container of priors compared after the fit and used for a second fit, observables / operands / correlators compared with their digest before printing, comparing, testing, viewing, a spectator ensemble with weight exactly zero; counters judged:<mechanism> give the number of evaluations of every judgement. '
         'non-trivial: a string with a non-zero error was judged (or the row produced a decision); distinct = digest of (value, error, significance, flag) / of the row inputs')
 ASSUMPTIONS = ['half-unit rule with 4 ulp slack (the float is scaled by a power of ten before rounding); errors at least 10^significance print as integers (documented integer floor)',
                'the prior parser multiplies the error digits by a power of ten in floating point: 2 ulp tolerated (3 ulp after the square / square-root of cov_Obs); the value must be the correctly rounded decimal',
@@ -68,6 +71,7 @@ class PriorMonitor(taps.Monitor):
         if den is None:
             ctx.count('prior_string_outside_grammar')
             return
+        jd(ctx, 'prior:value(error)-string-rejected')
         if exc is not None:
             ctx.ev()
             ctx.violation('prior:value(error)-string-rejected', {'string': token, 'exception': repr(exc)})
@@ -80,11 +84,17 @@ class PriorMonitor(taps.Monitor):
 
 def judge_prior_obs(ctx, s, obs, den):
     ctx.ev(2)
+    jd(ctx, 'prior:value-and-error-differ-from-string' + ('(from-least_squares)' if STATE['in_fit'] else ''))
     if not float(obs.value) == den[0]:
         ctx.violation('prior:value-differs-from-string', {'string': s, 'got': repr(float(obs.value)), 'denoted': repr(den[0])})
     dv = float(obs.dvalue)
     if not F.within_ulps(dv, den[1], 3):
         ctx.violation(error_tag('prior', dv, den[1]), {'string': s, 'got': repr(dv), 'denoted': repr(den[1])})
+
+
+def jd(ctx, tag, n=1):
+    """evidence: how often a judgement (or a group of judgements made together) was evaluated (hardening item 13)"""
+    ctx.count('judged:' + tag, n)
 
 
 def error_tag(prefix, got, exp):
@@ -111,8 +121,8 @@ def teardown(ctx):
 
 def plan(tier):
     m = 1 if tier == 'quick' else 144
-    return [('fmt', len(CELLS) * max(m, 2)), ('fmt_mc', 320 * m), ('cobs', 320 * m), ('plain', 96 * m), ('compare', 385 * m), ('zero', 480 * m),
-            ('plottable', 96 * m), ('fit_priors', 48 * m)]
+    return [('fmt', len(CELLS) * max(m, 2)), ('fmt_mc', 320 * m), ('cobs', 320 * m), ('plain', 360 * m), ('compare', 385 * m), ('zero', 480 * m),
+            ('plottable', 120 * m), ('fit_priors', 96 * m), ('many', 150 * m)]
 
 
 # ------------------------------------------------------------------------------------------
@@ -177,6 +187,7 @@ def report(ctx, prefix, problems, extra=None):
 def judge_string(ctx, s, val, dv, sig, prefix='format', extra=None, value_ulp=None):
     ctx.ev()
     ctx.count('strings_judged')
+    jd(ctx, prefix + ':half-unit,significance,sign')
     pr = F.judge(s, val, dv, sig, value_ulp=value_ulp)
     report(ctx, prefix, pr, extra)
     return not pr
@@ -192,6 +203,7 @@ def judge_parser(ctx, s):
         ctx.count('prior_parser_function_not_found')
         return
     ctx.count('prior_strings_parsed')
+    jd(ctx, 'prior-parser:value,error,rejection')
     ctx.ev(2)
     try:
         val, dval = fn(s)
@@ -207,6 +219,7 @@ def judge_parser(ctx, s):
 def judge_flag(ctx, s_plain, s_flag, flag, val):
     ctx.ev()
     ctx.count('flag_pairs_judged')
+    jd(ctx, 'format:flag-changes-a-negative-value' if (val < 0 or s_plain.startswith('-')) else 'format:flag-does-not-only-set-the-leading-character')
     exp = F.with_flag(s_plain, flag)
     if s_flag != exp:
         if val < 0 or s_plain.startswith('-'):
@@ -221,9 +234,11 @@ def all_views(ctx, o, sig, flag, k_count):
     if not (dv > 0 and math.isfinite(dv)):
         return []
     vulp = float(np.spacing(np.abs(o.value))) if isinstance(o.value, np.float32) else None
+    dg = obs_digest(o)
     s_plain = format(o, str(sig))
     judge_string(ctx, s_plain, val, dv, sig, extra={'via': 'format(obs, %r)' % str(sig)}, value_ulp=vulp)
     ctx.ev()
+    jd(ctx, 'float:differs-from-central-value')
     f = float(o)
     if not (type(f) is float and f == val):
         ctx.violation('float:differs-from-central-value', {'float': repr(f), 'value': repr(o.value)})
@@ -232,6 +247,7 @@ def all_views(ctx, o, sig, flag, k_count):
         s_flag = format(o, flag + str(sig))
         judge_flag(ctx, s_plain, s_flag, flag, val)
         ctx.ev()
+        jd(ctx, 'format:str.format-differs-from-format()')
         if ('{:%s%d}' % (flag, sig)).format(o) != s_flag:
             ctx.violation('format:str.format-differs-from-format()', {'spec': flag + str(sig)})
         out.append(s_flag)
@@ -240,17 +256,23 @@ def all_views(ctx, o, sig, flag, k_count):
         s2 = str(o)
         judge_string(ctx, s2, val, dv, 2, 'str-after-format', {'after': 'format(obs, %r)' % (flag + str(sig))}, value_ulp=vulp)
         ctx.ev(2)
+        jd(ctx, 'format:empty-specification/repr-after-another-significance')
         if format(o, '') != s2 or repr(o) != 'Obs[' + s2 + ']':
             ctx.violation('format:empty-specification-differs-from-two-significant-digits', {'str': s2, 'format_empty': format(o, ''), 'repr': repr(o)})
         ctx.count('str_after_other_significance')
     if sig == 2:
         ctx.ev(3)
+        jd(ctx, 'str,format-empty,repr:differ-from-two-significant-digits')
         if str(o) != s_plain:
             ctx.violation('str:differs-from-two-significant-digits', {'str': str(o), 'format2': s_plain})
         if format(o, '') != s_plain:
             ctx.violation('format:empty-specification-differs-from-two-significant-digits', {'got': format(o, ''), 'format2': s_plain})
         if repr(o) != 'Obs[' + s_plain + ']':
             ctx.violation('repr:not-Obs[str]', {'repr': repr(o), 'str': s_plain})
+    ctx.ev()
+    jd(ctx, 'format:observable-modified-by-printing')
+    if obs_digest(o) != dg or float(o.dvalue) != dv:
+        ctx.violation('format:observable-modified-by-printing', {'value': repr(o.value), 'dvalue_before': dv, 'dvalue_after': float(o.dvalue)})
     return out
 
 
@@ -274,6 +296,7 @@ def case_fmt(ctx, idx, rng):
             # the same numbers in the representations an observable can hold them in
             if j == 2:
                 ctx.ev()
+                jd(ctx, 'format:numpy-float64-arguments-print-differently')
                 if direct(np.float64(v), np.float64(e), sig) != s_dir:
                     ctx.violation('format:numpy-float64-arguments-print-differently', {'value': repr(v), 'error': repr(e)})
             elif j == 3:
@@ -297,6 +320,7 @@ def case_fmt(ctx, idx, rng):
         # the first observable printed again after all the others (a cache keyed by a summary of the numbers would show here)
         o, was = first
         ctx.ev()
+        jd(ctx, 'format:same-observable-prints-differently-later')
         ctx.count('strings_reproduced_later')
         now = [format(o, str(sig))] + ([format(o, flag + str(sig))] if flag else [])
         if now != was[:len(now)]:
@@ -328,6 +352,7 @@ def case_fmt_mc(ctx, idx, rng):
     o.gamma_method()
     back = all_views(ctx, o, sig, flag, 3)
     ctx.ev()
+    jd(ctx, 'format:same-observable-prints-differently-later(after-reanalysis)')
     if float(o.dvalue) == dv0 and back[:len(strings)] != strings:
         ctx.violation('format:same-observable-prints-differently-later', {'was': strings, 'now': back})
     for s in dict.fromkeys(strings):
@@ -335,6 +360,15 @@ def case_fmt_mc(ctx, idx, rng):
     if strings:
         PE.fits._construct_prior_obs(strings[-1], idx)
         ctx.nontrivial.add(digest('fmt_mc', repr(o.value), repr(o.dvalue), sig, flag))
+    # a spectator: another ensemble entering with weight exactly zero (first or last) changes neither value nor error nor the text
+    other = mc_obs(rng, 1.0, 0.3, 'E9')
+    d2 = (0.0 * other + o) if idx % 2 else (o + other * 0.0)
+    d2.gamma_method()
+    sp_strings = all_views(ctx, d2, sig, flag, 1)
+    ctx.ev()
+    jd(ctx, 'format:spectator-with-zero-weight-changes-the-text')
+    if float(d2.value) == float(o.value) and float(d2.dvalue) == float(o.dvalue) and sp_strings != back[:len(sp_strings)] and float(o.dvalue) == dv0:
+        ctx.violation('format:spectator-with-zero-weight-changes-the-text', {'without': back, 'with': sp_strings})
     # a derived observable prints by the same rule
     d = o * 3.0 + 1.0
     d.gamma_method()
@@ -374,11 +408,13 @@ def case_cobs(ctx, idx, rng):
         views.append(('str', str(c), 2, ''))
         views.append(('format-empty', format(c, ''), 2, ''))
         ctx.ev()
+        jd(ctx, 'cobs:repr-not-CObs[str]')
         if repr(c) != 'CObs[' + str(c) + ']':
             ctx.violation('cobs:repr-not-CObs[str]', {'repr': repr(c), 'str': str(c)})
     for via, s, sg, fl in views:
         ctx.ev()
         ctx.count('cobs_strings_judged')
+        jd(ctx, 'cobs:form,leading-character,imaginary-sign' + ('(%s)' % special if special != 'generic' else ''))
         sp = F.split_complex(s)
         if sp is None:
             if '+-' in s and float(im.value) == 0 and math.copysign(1.0, float(im.value)) < 0:
@@ -440,6 +476,7 @@ def case_plain(ctx, idx, rng):
         s = str(c)
         ctx.ev()
         ctx.count('plain_value_strings')
+        jd(ctx, 'cobs:plain-value-string-wrong')
         ok = False
         try:
             ok = complex(s) == complex(float(a.value), float(b.value))
@@ -452,6 +489,7 @@ def case_plain(ctx, idx, rng):
     for s, fl in views:
         ctx.ev()
         ctx.count('plain_value_strings')
+        jd(ctx, 'plain:observable-without-error-not-printed-as-its-value(%s)' % how)
         if not F.plain_value_ok(s, val, fl):
             ctx.violation('plain:observable-without-error-not-printed-as-its-value', {'string': s, 'value': repr(val), 'how': how, 'flag': fl})
     ctx.nontrivial.add(digest('plain', how, repr(val)))
@@ -510,6 +548,7 @@ def case_compare(ctx, idx, rng):
         partner = PE.Obs([x], ['E2'])
         pval = float(partner.value)
     ctx.cell('compare', rel, ptype)
+    dgs = (obs_digest(o), any_digest(partner))
     for name, op in OPS:
         ctx.ev(2)
         ctx.count('comparisons_judged', 2)
@@ -523,6 +562,7 @@ def case_compare(ctx, idx, rng):
             if f32 and bool(op(np.float32(a32), np.float32(b32))) != exp:
                 ctx.count('comparisons_borderline_within_float32_rounding')
                 continue
+            jd(ctx, tag + ('(tie)' if rel == 'tie' or ptype == 'self' else ''))
             if bool(got) != exp or not isinstance(got, (bool, np.bool_)):
                 ctx.violation(tag, {'value': repr(val), 'other': repr(pval), 'partner': ptype, 'got': repr(got), 'relation': rel})
     ctx.ev()
@@ -530,6 +570,10 @@ def case_compare(ctx, idx, rng):
     f = float(o)
     if not (type(f) is float and f == val):
         ctx.violation('float:differs-from-central-value', {'float': repr(f), 'value': repr(val)})
+    ctx.ev()
+    jd(ctx, 'compare:operand-modified-by-a-comparison')
+    if (obs_digest(o), any_digest(partner)) != dgs:
+        ctx.violation('compare:operand-modified-by-a-comparison', {'partner': ptype})
     ctx.nontrivial.add(digest('compare', repr(val), repr(pval), ptype))
     ctx.sample({'value': val, 'dvalue': dv, 'partner': ptype, 'other': pval, 'relation': rel})
 
@@ -555,6 +599,7 @@ def case_zero(ctx, idx, rng):
         e = 10.0 ** float(rng.uniform(-15, 15))
         o = mc_obs(rng, float(rng.choice([-1, 1])) * e * 10.0 ** float(rng.uniform(-2, 2)), e)
     val, dv = float(o.value), float(o.dvalue)
+    dg = obs_digest(o)
     got = o.is_zero_within_error() if sigma is None else o.is_zero_within_error(sigma)
     exp = abs(val) <= sg * dv
     # an explicit sigma must neither be remembered nor be overridden by what was asked before
@@ -562,10 +607,16 @@ def case_zero(ctx, idx, rng):
     o.is_zero_within_error(other_sigma)
     again = o.is_zero_within_error() if sigma is None else o.is_zero_within_error(sigma)
     ctx.ev()
+    jd(ctx, 'is_zero_within_error:observable-modified-by-the-test')
+    if obs_digest(o) != dg or float(o.dvalue) != dv:
+        ctx.violation('is_zero_within_error:observable-modified-by-the-test', {'value': repr(val)})
+    ctx.ev()
+    jd(ctx, 'is_zero_within_error:answer-depends-on-earlier-calls')
     if bool(again) != bool(got):
         ctx.violation('is_zero_within_error:answer-depends-on-earlier-calls', {'value': repr(val), 'dvalue': repr(dv), 'sigma': repr(sigma), 'first': bool(got), 'later': bool(again)})
     ctx.ev()
     ctx.count('zero_tests_judged')
+    jd(ctx, 'is_zero_within_error:' + ('equality-not-counted-as-within' if how == 'tie' else 'differs-from-abs(value)<=sigma*dvalue'))
     if how == 'tie':
         ctx.count('zero_tests_at_equality')
     ctx.cell('zero', how, 'sigma=%r' % sigma, 'tiny' if abs(val) < 1e-10 else 'normal')
@@ -621,7 +672,12 @@ def case_plottable(ctx, idx, rng):
     if idx % 3 == 1 and corr.T >= 3:
         corr.set_prange([1, corr.T - 2])          # a stored plateau range must not restrict the plottable view
         ctx.cell('plottable', 'prange-set')
+    dgc = any_digest(corr)
     x, y, dy = corr.plottable()
+    ctx.ev()
+    jd(ctx, 'plottable:correlator-modified-by-the-view')
+    if any_digest(corr) != dgc:
+        ctx.violation('plottable:correlator-modified-by-the-view', {'T': corr.T})
     ctx.count('plottable_views')
     ctx.cell('plottable', pattern)
     ex, ey, edy = [], [], []
@@ -631,6 +687,7 @@ def case_plottable(ctx, idx, rng):
             ey.append(float(c[0].value))
             edy.append(float(c[0].dvalue))
     ctx.ev(3)
+    jd(ctx, 'plottable:timeslices,values,errors')
     if list(x) != ex:
         ctx.violation('plottable:timeslices-differ-from-defined-slices', {'got': list(x), 'expected': ex})
     if [float(v) for v in y] != ey:
@@ -652,6 +709,7 @@ def case_plottable(ctx, idx, rng):
     edy2 = [float(c[0].dvalue) for c in corr.content if c is not None]
     ctx.ev(2)
     ctx.count('plottable_views_repeated')
+    jd(ctx, 'plottable:later-view(caller-changed-lists,second-analysis)')
     if list(x2) != ex or [float(v) for v in y2] != ey:
         ctx.violation('plottable:later-view-differs(caller-changed-the-earlier-lists)', {'got_x': list(x2), 'expected_x': ex})
     if [float(v) for v in dy2] != edy2:
@@ -682,8 +740,14 @@ def case_fit_priors(ctx, idx, rng):
     for o, s_, sg in zip(pobs, strings, sigs):
         judge_string(ctx, s_, float(o.value), float(o.dvalue), sg, extra={'via': 'prior string'})
 
-    def func(p, x):
-        return p[0] + p[1] * x
+    if (idx // 4) % 3 == 0:
+        func = SHARED_LINEAR                      # one function object for many fits of this process, with other data and priors
+    elif (idx // 4) % 3 == 1:
+        func = lambda p, x: p[0] + p[1] * x       # noqa: E731  a new object with the same code every time
+    else:
+        def func(p, x):
+            return p[0] + p[1] * x
+    ctx.cell('fit_priors', 'function', ['shared-object', 'fresh-lambda', 'fresh-def'][(idx // 4) % 3])
     form = ['list', 'dict', 'dict-one', 'array'][idx % 4]
     if form == 'list':
         priors = list(strings)
@@ -699,6 +763,27 @@ def case_fit_priors(ctx, idx, rng):
         out = pe.fits.least_squares(xs, ys, func, priors=priors, silent=True)
     finally:
         STATE['in_fit'] = False
+    # the container of priors the caller holds is what it was; the same container and function in a second fit give the same priors
+    before = list(strings) if form in ('list', 'array') else ({0: strings[0], 1: strings[1]} if form == 'dict' else {1: strings[1]})
+    now = list(priors) if form in ('list', 'array') else dict(priors)
+    ctx.ev()
+    jd(ctx, 'prior:container-of-priors-modified-by-the-fit')
+    if [str(t) for t in (now if isinstance(now, list) else now.values())] != [str(t) for t in (before if isinstance(before, list) else before.values())] or \
+            any(not isinstance(t, str) for t in (now if isinstance(now, list) else now.values())):
+        ctx.violation('prior:container-of-priors-modified-by-the-fit', {'form': form, 'now': repr(now)[:200]})
+    elif idx % 2 == 0:
+        STATE['in_fit'] = True
+        try:
+            out2 = pe.fits.least_squares(xs, ys, func, priors=priors, silent=True)
+        finally:
+            STATE['in_fit'] = False
+        g2 = out2.priors
+        it2 = list(g2.items()) if isinstance(g2, dict) else list(enumerate(g2))
+        for pos, p2 in it2:
+            den = F.denoted(str(strings[pos]))
+            if den is not None:
+                judge_prior_obs(ctx, str(strings[pos]), p2, den)
+        ctx.count('second_fit_with_the_same_priors_object')
     got = out.priors
     items = list(got.items()) if isinstance(got, dict) else list(enumerate(got))
     for pos, p in items:
@@ -709,12 +794,99 @@ def case_fit_priors(ctx, idx, rng):
         ctx.count('fit_priors_compared')
     if len(items) == 2:
         ctx.ev()
+        jd(ctx, 'prior:two-string-priors-share-a-covariance-name')
         if set(items[0][1].names) & set(items[1][1].names):
             ctx.violation('prior:two-string-priors-share-a-covariance-name', {'names': [list(i[1].names) for i in items], 'strings': [str(t) for t in strings]})
     ctx.nontrivial.add(digest('fit', strings, form))
     ctx.sample({'priors': [str(s) for s in strings], 'form': form, 'fit_priors': [[float(p.value), float(p.dvalue)] for _, p in items]})
 
 
+def SHARED_LINEAR(p, x):
+    return p[0] + p[1] * x
+
+
+PRIOR_POSITIONS = [9, 10, 11, 12, 99, 100, 101, 255, 256, 257, 999, 1000, 65536]
+
+
+def case_many(ctx, idx, rng):
+    """more than 10 / 100 / 255 members where members are numbered by position: prior positions, fits with 11 or 12
+    parameters that all carry string priors, correlators with more than 100 timeslices"""
+    pe = PE
+    how = idx % 3
+    if how == 0:
+        ctx.cell('many', 'prior-positions')
+        seen = set()
+        for pos in PRIOR_POSITIONS:
+            e = 10.0 ** float(rng.uniform(-6, 3))
+            o = controlled_obs(float(rng.normal()) * e * 10.0 ** float(rng.uniform(-1, 3)), e)
+            sig = int(rng.integers(1, 7))
+            s = format(o, FLAGS[pos % 3] + str(sig))
+            p = pe.fits._construct_prior_obs(s, pos)          # judged by the tap
+            jd(ctx, 'prior:position>=10')
+            ctx.ev()
+            jd(ctx, 'prior:two-string-priors-share-a-covariance-name')
+            if seen & set(p.names):
+                ctx.violation('prior:two-string-priors-share-a-covariance-name', {'position': pos, 'names': list(p.names)})
+            seen |= set(p.names)
+        ctx.nontrivial.add(digest('many-priors', idx))
+    elif how == 1:
+        npar = 11 + idx % 2
+        ctx.cell('many', 'fit-with-%d-string-priors' % npar)
+        xs = np.arange(npar, dtype=float)
+        truth = rng.normal(size=npar) * 3
+        ys = [pe.Obs([truth[i] + rng.normal(size=30) * 0.2], ['E1']) for i in range(npar)]
+        [y.gamma_method() for y in ys]
+        pob = [controlled_obs(truth[i] + 0.1 * float(rng.normal()), 10.0 ** float(rng.uniform(-2, 0))) for i in range(npar)]
+        strings = [format(o, FLAGS[i % 3] + str(1 + i % 6)) for i, o in enumerate(pob)]
+
+        def func(p, x):
+            return sum(p[i] * (x == i) for i in range(npar))
+        priors = list(strings) if idx % 4 < 2 else {i: strings[i] for i in reversed(range(npar))}      # dict filled in descending order
+        STATE['in_fit'] = True
+        try:
+            out = pe.fits.least_squares(xs, ys, func, priors=priors, silent=True)
+        finally:
+            STATE['in_fit'] = False
+        got = out.priors
+        items = list(got.items()) if isinstance(got, dict) else list(enumerate(got))
+        ctx.require(len(items) == npar, 'prior:number-of-priors-built-by-the-fit', lambda: {'got': len(items), 'expected': npar})
+        jd(ctx, 'prior:number-of-priors-built-by-the-fit')
+        names = set()
+        for pos, p in items:
+            judge_prior_obs(ctx, strings[pos], p, F.denoted(strings[pos]))
+            ctx.ev()
+            jd(ctx, 'prior:two-string-priors-share-a-covariance-name')
+            if names & set(p.names):
+                ctx.violation('prior:two-string-priors-share-a-covariance-name', {'position': pos, 'names': list(p.names)})
+            names |= set(p.names)
+        ctx.count('fits_with_more_than_ten_string_priors')
+        ctx.nontrivial.add(digest('many-fit', strings))
+        ctx.sample({'priors': strings, 'parameters': npar})
+    else:
+        T = int(rng.choice([11, 101, 130, 260]))
+        ctx.cell('many', 'correlator-T=%d' % T)
+        content = []
+        for t in range(T):
+            e = 10.0 ** float(rng.uniform(-8, 2))
+            content.append(None if rng.random() < 0.15 else pe.cov_Obs(float(rng.normal()) * 10.0 ** float(rng.uniform(-8, 8)), e * e, 'cvK'))
+        if all(c is None for c in content):
+            content[0] = pe.cov_Obs(1.0, 0.01, 'cvK')
+        corr = pe.Corr(content)
+        corr.gamma_method()
+        x, y, dy = corr.plottable()
+        ex = [t for t, c in enumerate(content) if c is not None]
+        ctx.ev(3)
+        jd(ctx, 'plottable:timeslices,values,errors(T>10)')
+        if list(x) != ex:
+            ctx.violation('plottable:timeslices-differ-from-defined-slices', {'T': T, 'got_tail': list(x)[-5:], 'expected_tail': ex[-5:]})
+        if [float(v) for v in y] != [float(content[t].value) for t in ex]:
+            ctx.violation('plottable:values-differ-from-central-values', {'T': T})
+        if [float(v) for v in dy] != [float(corr.content[t][0].dvalue) for t in ex]:
+            ctx.violation('plottable:errors-differ-from-dvalue', {'T': T})
+        ctx.count('plottable_views')
+        ctx.nontrivial.add(digest('many-corr', T, ex))
+
+
 def run_case(ctx, kind, idx, rng):
     {'fmt': case_fmt, 'fmt_mc': case_fmt_mc, 'cobs': case_cobs, 'plain': case_plain, 'compare': case_compare, 'zero': case_zero,
-     'plottable': case_plottable, 'fit_priors': case_fit_priors}[kind](ctx, idx, rng)
+     'plottable': case_plottable, 'fit_priors': case_fit_priors, 'many': case_many}[kind](ctx, idx, rng)
